@@ -79,7 +79,9 @@ def run(ctx):
         ctx.check("C06-R2", nm, ok, "%s does not return <other>::VarInt::from_u64_unchecked(varint.into_inner())" % nm, where(f))
     f = A.fn("wtransport::driver::utils::streamid_q2w")
     ok = False
-    for p in nonpanic(walk(f)):
+    # normal form: local helpers (e.g. varint_q2w) are looked through down to the two VarInt types
+    STOPQ = re.compile(r"^wtransport_proto::(varint::VarInt|ids::StreamId)::|^quinn|^<impl .*From<quinn")
+    for p in nonpanic(walk(f, inline=STOPQ)):
         leaf = p.leaf[1]
         s = path_sig(p)[1]
         if s == "return StreamId::new(VarInt::from_u64_unchecked(VarInt::into_inner(<impl From<StreamId> for VarInt>::from(stream_id))))":
